@@ -54,7 +54,8 @@ func (w *world) apply(op kernel.Op) {
 		if w.c.InBlock || w.c.Height < 2 {
 			return
 		}
-		w.c.NextEvidence = append(w.c.NextEvidence, w.c.DuplicateVoteEvidence(kernel.Mod(op.Arg(0), 2)))
+		// (often reported late: stake that began unbonding after the infraction is slashed as well)
+		w.c.NextEvidence = append(w.c.NextEvidence, w.c.DuplicateVoteEvidenceAt(kernel.Mod(op.Arg(0), 2), []int64{0, 2, 6, 15}[kernel.Mod(op.Arg(0)/2, 4)]))
 		w.slashed = true
 		w.rec.Fault("byz.double_sign_evidence")
 	case "votemode":
